@@ -98,3 +98,10 @@ claim('C15',
       'aligns start and end with the same terminator and computes end from the unaligned start; FileSource pairs `current <= end` with '
       'an unconditional first-line discard; every Range<_> generate_iterator clamps end-start at zero.',
       'byte/line arithmetic for concrete file contents and the chunk arithmetic of generate_iterator (value level).')
+claim('C11',
+      'BinaryStartReceiver decision tables: batches are cached iff the side is cached and Terminate never enters a cached batch; the '
+      'cache pointer skips a batch delivered live; the cache is replayed only under cached && cache_full && !cache_finished; the '
+      'first message of a round is requested from the non-cached side; reset rewinds only the cached side; one Terminate per cached '
+      'replica is re-synthesised once both sides terminated.',
+      'completeness of the cache under all interleavings (timing of cache_full); which side binary_connection marks as cached is '
+      'checked under C11.R1 when the plan-shape engine is armed.')
